@@ -17,7 +17,8 @@ RULE = (
     "Result tables generated directly: 1-4 groups x 1-5 metrics x 1-12 uniquely named subjects, every cell drawn from "
     "{finite float (incl. subnormal, 1e-300..1e100, negative), integer, empty, nan, inf, -inf}, written in the "
     "aggregator's TSV layout and loaded with Panoptica_Statistic.from_file; the same table with rows permuted; the same "
-    "values passed to the constructor directly (None for missing). Oracle: for every (group, metric) with >=1 finite "
+    "values passed to the constructor directly (None for missing); after a generated history of 0-6 read-only queries "
+    "(get, get_across_groups, get_summary_dict, get_one_subject, ...) every answer is checked again. Oracle: for every (group, metric) with >=1 finite "
     "cell avg/std/min/max = fsum mean / population std / min / max of exactly the finite cells; permutation invariant; "
     "get_one_subject returns the subject's own cells (None for non-finite); when every column has a finite cell the "
     "across-groups summary equals the same statistics over the per-group averages. Non-trivial: some column mixes "
@@ -53,7 +54,9 @@ def table(draw):
     # case-sensitive uniqueness is enough for subjects, keep them as drawn
     cells = [[draw(cell) for _ in range(ng * nm)] for _ in range(ns)]
     perm = list(draw(st.permutations(list(range(ns)))))
-    return {"groups": groups, "metrics": list(metrics), "subjects": subjects, "cells": cells, "perm": perm}
+    # a history of read-only queries; the object must answer the same afterwards
+    queries = draw(st.lists(st.tuples(st.sampled_from(["get", "get_nonone", "across", "summary_dict", "one_subject", "across_summary"]), st.integers(0, 7), st.integers(0, 7)), min_size=0, max_size=6))
+    return {"groups": groups, "metrics": list(metrics), "subjects": subjects, "cells": cells, "perm": perm, "queries": [list(q) for q in queries]}
 
 
 def searches(tier):
@@ -127,6 +130,29 @@ def check_stat(stat, case, order, tag):
     return all_cols_finite
 
 
+def run_queries(stat, case):
+    """Read-only API calls in generated order (their results are not needed; exceptions of calls that
+    are undefined on all-missing columns are ignored)."""
+    g, m, sj = case["groups"], case["metrics"], case["subjects"]
+    for op, a, b in case["queries"]:
+        try:
+            with H.quiet():
+                if op == "get":
+                    stat.get(g[a % len(g)], m[b % len(m)])
+                elif op == "get_nonone":
+                    stat.get(g[a % len(g)], m[b % len(m)], remove_nones=True)
+                elif op == "across":
+                    stat.get_across_groups(m[b % len(m)])
+                elif op == "summary_dict":
+                    stat.get_summary_dict(include_across_group=bool(a % 2))
+                elif op == "one_subject":
+                    stat.get_one_subject(sj[a % len(sj)])
+                else:
+                    stat.get_summary_across_groups()
+        except (ValueError, ZeroDivisionError):
+            pass
+
+
 def check(case, stats):
     from panoptica import Panoptica_Statistic
 
@@ -157,6 +183,10 @@ def check(case, stats):
                 raise Violation(f"[{tag}] loaded subjects {stat.subjectnames} != written")
             if check_stat(stat, case, order, tag):
                 stats.count("across_groups_compared")
+            if case.get("queries"):
+                run_queries(stat, case)
+                check_stat(stat, case, order, tag + " after " + ",".join(q[0] for q in case["queries"]))
+                stats.count("rechecked_after_query_history")
         vd = {g: {m: [finite_or_none(r[gi * nm + mi]) for r in case["cells"]] for mi, m in enumerate(metrics)} for gi, g in enumerate(groups)}
         stat = H.lib_call(lambda: Panoptica_Statistic(list(case["subjects"]), vd))
         check_stat(stat, case, ident, "constructor")
